@@ -590,12 +590,423 @@ def pipeline_probes(ctx, rng):
                 viol("pipeline-exception", "kriging with %s raised %r" % (name, e), dict(model=name, dim=dim))
 
 
+# --------------------------------------------------------------------------- histories on one model object
+
+HIST_MODELS = ["Gaussian", "Exponential", "Matern", "Stable", "Rational", "Cubic", "HyperSpherical"]   # valid in every dim
+EMPTY = np.zeros(0)
+
+
+class Shadow:
+    """the Coq state machine (geo_init / geo_step, executed by the extracted model) next to one CovModel object"""
+
+    def __init__(self, drv, dim, ls, anis, angles, temporal):
+        self.drv, self.temporal = drv, bool(temporal)
+        r = drv.call("geo_init", ("n", dim), np.atleast_1d(np.asarray(ls, dtype=float)), np.atleast_1d(np.asarray(anis, dtype=float)),
+                     np.atleast_1d(np.asarray(angles, dtype=float)), self.temporal)
+        self.valid = r is not None
+        if self.valid:
+            self.set(r)
+
+    def set(self, r):
+        self.dim, self.len, self.anis, self.angles = int(r[0]), float(r[1]), np.asarray(r[2], dtype=float), np.asarray(r[3], dtype=float)
+
+    def step(self, code, vec=EMPTY, d=0):
+        self.set(self.drv.call("geo_step", ("n", self.dim), self.len, self.anis, self.angles, self.temporal, ("n", code),
+                               np.atleast_1d(np.asarray(vec, dtype=float)), ("n", d)))
+
+    def args(self):
+        return (("n", self.dim), self.len, self.anis, self.angles, self.temporal)
+
+
+def as_user(rng, vals, names, log, what, callers):
+    """hand a parameter vector to the library the way users do: float, list, tuple or float64 ndarray (kept: aliasing)"""
+    vals = np.asarray(vals, dtype=float)
+    kinds = ["list", "array", "tuple"] + (["scalar"] if len(vals) == 1 else [])
+    k = kinds[int(rng.integers(len(kinds)))]
+    log.append("%s as %s %s" % (what, k, hexl(vals)))
+    if k == "scalar":
+        return float(vals[0])
+    if k == "list":
+        return [float(v) for v in vals]
+    if k == "tuple":
+        return tuple(float(v) for v in vals)
+    arr = np.array(vals, dtype=np.double)
+    callers.append([what, arr, arr.copy()])
+    return arr
+
+
+def fresh_model(gs, cls, sh, proto):
+    """a new object built from the PRESENT parameter values (what every result must be a function of)"""
+    kw = {k: getattr(proto, k) for k in proto.opt_arg}
+    return cls(dim=sh.dim, var=proto.var, len_scale=sh.len, nugget=proto.nugget, rescale=proto.rescale,
+               anis=[float(a) for a in sh.anis] if sh.dim > 1 else 1.0,
+               angles=[float(a) for a in sh.angles] if len(sh.angles) else 0.0, temporal=sh.temporal, **kw)
+
+
+def gen_geo_op(rng, sh, allow_dim, cls_name):
+    """(name, code, vector, new_dim): a setter call on the model that touches the geometry (valid values)"""
+    dim = sh.dim
+    noa = dim * (dim - 1) // 2
+    u = rng.random()
+    if u < 0.12:
+        return ("len_scale", 0, 10.0 ** rng.uniform(-0.5, 1, size=1), 0)
+    if u < 0.36:
+        return ("len_scale", 0, 10.0 ** rng.uniform(-0.5, 1, size=int(rng.integers(2, dim + 2))), 0)
+    if u < 0.46 and cls_name in ("Gaussian", "Exponential"):
+        return ("integral_scale", 0, 10.0 ** rng.uniform(-0.5, 1, size=int(rng.integers(2, dim + 2))), 0)
+    if u < 0.68:
+        return ("anis", 1, gen_anis(rng, int(rng.integers(1, dim + 1)), wide=False), 0)
+    if u < 0.9 or not allow_dim:
+        n = int(rng.choice([1, max(noa, 1), max(noa, 1), noa + 1]))
+        a = rng.uniform(0.2, 1.4, size=n) * rng.choice([-1.0, 1.0], size=n)
+        return ("angles", 2, a, 0)
+    nd = int(rng.integers(2 if sh.temporal else 1, 5))
+    return ("dim", 3, EMPTY, nd)
+
+
+def apply_geo_op(gs, rng, m, sh, op, log, callers):
+    name, code, vec, nd = op
+    if name == "dim":
+        log.append("model.dim = %d" % nd)
+        m.dim = nd
+        sh.step(3, EMPTY, nd)
+    elif name == "integral_scale":
+        m.integral_scale = as_user(rng, vec, None, log, "model.integral_scale", callers)
+        sh.step(0, vec)
+        kw = {k: getattr(m, k) for k in m.opt_arg}
+        unit = type(m)(dim=sh.dim, len_scale=1.0, rescale=m.rescale, **kw).integral_scale
+        sh.step(0, [sh.len / unit])
+    else:
+        setattr(m, name, as_user(rng, vec, None, log, "model." + name, callers))
+        sh.step(code, vec)
+
+
+def check_model(ctx, gs, drv, rng, m, sh, log, callers, siblings, tag):
+    """one model object against (a) the Coq state machine, (b) the extracted coordinate maps of the present state,
+    (c) a fresh object built from the present parameters; plus caller arrays / sibling models untouched"""
+    def viol(name, what, extra=None):
+        if name not in SEEN:
+            SEEN.add(name)
+            ctx.violation("probe: " + name, what, dict(history=list(log), tag=tag, **(extra or {})), key="probe:" + name)
+
+    for what, arr, ref in callers:
+        if not C.bit_equal(arr, ref):
+            viol("history-caller-array", "the library wrote into an array handed over by the caller (%s)" % what,
+                 dict(now=hexl(arr), was=hexl(ref)))
+            ref[...] = arr
+    for sm, ssh, slog in [(m, sh, log)] + siblings:
+        ok = (sm.dim == ssh.dim and C.bit_equal(np.asarray(sm.anis), ssh.anis) and C.bit_equal(np.asarray(sm.angles), ssh.angles)
+              and agree(sm.len_scale, ssh.len, abs(ssh.len), tol=1e-13))
+        if not ok:
+            viol("history-params", "model parameters (dim, len_scale, anis, angles) differ from the setter state machine after this history"
+                 + ("" if sm is m else " (a model built earlier from the same arrays changed)"),
+                 dict(model=[sm.dim, float(sm.len_scale), hexl(sm.anis), hexl(sm.angles)],
+                      expected=[ssh.dim, ssh.len, hexl(ssh.anis), hexl(ssh.angles)], sibling_history=None if sm is m else list(slog)))
+            return False
+    dim = sh.dim
+    pos = rng.normal(size=(dim, 4)) * 3
+    fm = fresh_model(gs, type(m), sh, m)
+    mi = np.asarray(gs.tools.geometric.matrix_isometrize(dim, sh.angles, sh.anis))
+    ma = np.asarray(gs.tools.geometric.matrix_anisometrize(dim, sh.angles, sh.anis))
+    sci, sca = np.abs(mi) @ np.abs(pos), np.abs(ma) @ np.abs(pos)
+    extra = dict(pos=hexl(pos), dim=dim, anis=hexl(sh.anis), angles=hexl(sh.angles))
+    obs = [("isometrize", m.isometrize(pos), fm.isometrize(pos), drv.call("geo_isometrize", *sh.args(), pos), sci),
+           ("anisometrize", m.anisometrize(pos), fm.anisometrize(pos), drv.call("geo_anisometrize", *sh.args(), pos), sca),
+           ("_get_iso_rad", m._get_iso_rad(pos), fm._get_iso_rad(pos), drv.call("geo_iso_rad", *sh.args(), pos), np.linalg.norm(sci, axis=0)),
+           ("main_axes", m.main_axes(), fm.main_axes(), drv.call("rotated_main_axes", ("n", dim), sh.angles), 1.0)]
+    good = True
+    for nm, got, fresh, model, sc in obs:
+        if not agree(got, fresh, tol=0.0):
+            viol("history-" + nm, "%s of a model with a setter history differs from a fresh model with the present parameters" % nm, extra)
+            good = False
+        elif not agree(got, model, sc):
+            viol("history-model-" + nm, "%s differs from the (extracted) Coq function of the present parameters" % nm, extra)
+            good = False
+    rad = drv.call("geo_iso_rad", *sh.args(), pos)
+    for nm, fs, f in (("cov_spatial", m.cov_spatial, fm.covariance), ("vario_spatial", m.vario_spatial, fm.variogram),
+                      ("cor_spatial", m.cor_spatial, fm.correlation)):
+        if not C.close(fs(pos), f(rad), rtol=RTOL_PIPE, scale=max(m.sill, 1.0)):
+            viol("history-" + nm, "%s(x) is not the isotropic function of the radius given by the present parameters" % nm, extra)
+            good = False
+    if not agree(m.anisometrize(m.isometrize(pos)), pos, np.abs(ma) @ sci, tol=1e-11):
+        viol("history-round-trip", "anisometrize(isometrize(x)) != x after this history", extra)
+        good = False
+    if not agree(m.len_scale_vec, np.concatenate(([sh.len], sh.len * sh.anis)), tol=0.0):
+        viol("history-len-scale-vec", "len_scale_vec is not len_scale * (1, anis) of the present parameters", extra)
+    return good
+
+
+def start_model(gs, drv, rng, dims, log, callers, temporal_ok=True):
+    name = HIST_MODELS[int(rng.integers(len(HIST_MODELS)))]
+    cls = getattr(gs, name)
+    dim = int(dims[int(rng.integers(len(dims)))])
+    temporal = bool(temporal_ok and dim >= 2 and rng.random() < 0.25)
+    noa = dim * (dim - 1) // 2
+    ls = 10.0 ** rng.uniform(-0.5, 1, size=int(rng.choice([1, 1, min(2, dim), dim])))
+    anis = gen_anis(rng, max(dim - 1, 1), wide=False)
+    angles = rng.uniform(0.2, 1.4, size=max(noa, 1)) * rng.choice([-1.0, 1.0], size=max(noa, 1))
+    log.append("%s(dim=%d, temporal=%s)" % (name, dim, temporal))
+    kw = dict(var=float(10 ** rng.uniform(-0.5, 0.5)), nugget=0.0)
+    m = cls(dim=dim, temporal=temporal, len_scale=as_user(rng, ls, None, log, "len_scale", callers),
+            anis=as_user(rng, anis, None, log, "anis", callers), angles=as_user(rng, angles, None, log, "angles", callers), **kw)
+    sh = Shadow(drv, dim, ls, anis, angles, temporal)
+    return name, cls, m, sh
+
+
+def scribble(rng, callers, log):
+    """the caller goes on using an array it handed over earlier"""
+    if not callers:
+        return
+    c = callers[int(rng.integers(len(callers)))]
+    if len(c[1]):
+        c[1][...] = c[1] * 1.5 + 0.25
+        c[2][...] = c[1]
+        log.append("caller edits its %s array in place -> %s" % (c[0], hexl(c[1])))
+
+
+def make_sibling(gs, drv, rng, cls, m, sh, callers, siblings, log):
+    """another model built from arrays the first one was built from / hands out"""
+    u = rng.random()
+    ang = [c for c in callers if c[0].endswith("angles")]
+    if u < 0.4 and ang:
+        src, what = ang[-1][1], "the caller's angles array"
+    elif u < 0.8:
+        src, what = m.angles, "model.angles"
+    else:
+        src, what = None, "model.anis"
+    dim = sh.dim
+    temporal = bool(dim >= 2 and rng.random() < 0.6)
+    slog = ["sibling %s(dim=%d, temporal=%s) built from %s" % (cls.__name__, dim, temporal, what)]
+    log.append(slog[0])
+    if src is None:
+        sm = cls(dim=dim, temporal=temporal, anis=m.anis if dim > 1 else 1.0)
+        ssh = Shadow(drv, dim, [1.0], sh.anis if dim > 1 else [1.0], [0.0], temporal)
+    else:
+        vals = np.array(src, dtype=float)
+        sm = cls(dim=dim, temporal=temporal, angles=src if len(vals) else 0.0)
+        ssh = Shadow(drv, dim, [1.0], [1.0], vals if len(vals) else [0.0], temporal)
+    siblings.append((sm, ssh, slog))
+
+
+def model_histories(ctx, drv, rng):
+    import gstools as gs
+    n_hist = 100 if ctx.tier == "thorough" else 30
+    steps = 12
+    for h in range(n_hist):
+        log, callers, siblings = [], [], []
+        try:
+            name, cls, m, sh = start_model(gs, drv, rng, (1, 2, 3, 4), log, callers)
+            ctx.count(("history-model", name, sh.dim, sh.temporal), hist=dict(history="model only", hist_class=name))
+            if not check_model(ctx, gs, drv, rng, m, sh, log, callers, siblings, "model history %d" % h):
+                continue
+            for k in range(steps):
+                u = rng.random()
+                if u < 0.15:
+                    log.append("evaluate")
+                elif u < 0.3:
+                    scribble(rng, callers, log)
+                elif u < 0.42:
+                    make_sibling(gs, drv, rng, cls, m, sh, callers, siblings, log)
+                elif u < 0.5:
+                    log.append("model.rescale = ...")
+                    m.rescale = float(10 ** rng.uniform(-0.3, 0.3))
+                else:
+                    op = gen_geo_op(rng, sh, True, name)
+                    apply_geo_op(gs, rng, m, sh, op, log, callers)
+                    ctx.count(None, hist=dict(history_op=op[0]))
+                ctx.count(("history-step", name, log[-1].split(" ")[0].split("=")[0], k) if sh.dim > 1 else None)
+                if not check_model(ctx, gs, drv, rng, m, sh, log, callers, siblings, "model history %d step %d" % (h, k)):
+                    break
+        except Exception as e:
+            if "history-exception" not in SEEN:
+                SEEN.add("history-exception")
+                ctx.violation("probe: history-exception", "a valid setter history raised %r" % (e,), dict(history=log), key="probe:history-exception")
+
+
+def holder_histories(ctx, drv, rng):
+    """SRF / Krige / CondSRF objects holding ONE model object that is changed in place, re-assigned, evaluated on new
+    and on stored positions; every result against fresh objects built from the present parameters and against the
+    extracted isometrize of the present parameters"""
+    import gstools as gs
+    n_hist = 60 if ctx.tier == "thorough" else 20
+    steps = 10
+    for h in range(n_hist):
+        log, callers, siblings = [], [], []
+
+        def viol(name, what, extra=None):
+            if name not in SEEN:
+                SEEN.add(name)
+                ctx.violation("probe: " + name, what, dict(history=list(log), **(extra or {})), key="probe:" + name)
+        try:
+            while True:
+                log, callers = [], []
+                name, cls, m, sh = start_model(gs, drv, rng, (2, 3), log, callers)
+                if name in SRF_MODELS:
+                    break
+            dim = sh.dim
+            ctx.count(("history-holder", name, dim, sh.temporal), hist=dict(history="SRF/Krige/CondSRF holders", hist_class=name))
+            seed0 = int(rng.integers(1, 2 ** 31 - 1))
+            simple = bool(rng.random() < 0.5)
+            cond = {}
+
+            def new_cond(who, n):
+                cond[who] = (rng.uniform(-4, 4, size=(dim, n)) * sh.len, rng.normal(size=n))
+
+            def mk_krige(mod, who, fit=False):
+                cp, cv = cond[who]
+                if simple:
+                    return gs.krige.Simple(mod, cp, cv, mean=0.2, fit_variogram=fit)
+                return gs.krige.Ordinary(mod, cp, cv, fit_variogram=fit)
+
+            def resync():
+                """fit_variogram changed the model in place: the present parameters are whatever the model now reports"""
+                nsh = Shadow(drv, m.dim, [float(m.len_scale)], np.asarray(m.anis) if m.dim > 1 else [1.0],
+                             np.asarray(m.angles) if len(m.angles) else [0.0], sh.temporal)
+                sh.set((nsh.dim, nsh.len, nsh.anis, nsh.angles))
+                log.append("fit_variogram changed the model: len_scale %s anis %s angles %s nugget %r" % (
+                    C.fhex(m.len_scale), hexl(m.anis), hexl(m.angles), float(m.nugget)))
+
+            fit0 = (h % 3 == 1)
+            new_cond("kr", 30 if fit0 else 7)
+            new_cond("cs", 7)
+            srf = gs.SRF(m, seed=seed0, mode_no=32)
+            try:
+                kr = mk_krige(m, "kr", fit0)
+            except (RuntimeError, ValueError) as e:   # the optimiser of fit_variogram gave up: not this property
+                ctx.count(None, hist=dict(history="fit_variogram failed"))
+                continue
+            cs = gs.CondSRF(mk_krige(m, "cs"), seed=seed0, mode_no=32)
+            log.append("SRF(model), %s(model, cond, fit_variogram=%s), CondSRF(krige(model, cond)) created" % ("Simple" if simple else "Ordinary", fit0))
+            dirty = dict(kr=False, cs=False)
+            stored = dict(srf=None, kr=None, cs=None)
+            force = None
+            if fit0:
+                resync()
+                force = "kr"
+                dirty["cs"] = True
+            for k in range(steps):
+                u = rng.random() if force is None else 1.0
+                if force is None and m.nugget > 0:
+                    log.append("model.nugget = 0.0")
+                    m.nugget = 0.0
+                    dirty["kr"] = dirty["cs"] = True
+                if u < 0.08:
+                    # new conditioning data, optionally fitting the model to them (changes the model in place)
+                    who = ["kr", "cs"][int(rng.integers(2))]
+                    fit = bool(rng.random() < 0.6)
+                    new_cond(who, 30 if fit else 7)
+                    log.append("%s.set_condition(new data, fit_variogram=%s): %s %s" % (who, fit, hexl(cond[who][0]), hexl(cond[who][1])))
+                    try:
+                        (kr if who == "kr" else cs.krige).set_condition(cond[who][0], cond[who][1], fit_variogram=fit)
+                    except (RuntimeError, ValueError):
+                        ctx.count(None, hist=dict(history="fit_variogram failed"))
+                        break
+                    dirty[who] = False
+                    if fit:
+                        resync()
+                        dirty["cs" if who == "kr" else "kr"] = True
+                        force = who
+                    continue
+                if u < 0.3:
+                    op = gen_geo_op(rng, sh, False, name)
+                    apply_geo_op(gs, rng, m, sh, op, log, callers)
+                    dirty["kr"] = dirty["cs"] = True
+                    ctx.count(None, hist=dict(history_op=op[0]))
+                    if not check_model(ctx, gs, drv, rng, m, sh, log, callers, siblings, "holder history %d step %d" % (h, k)):
+                        break
+                    continue
+                if u < 0.38:
+                    scribble(rng, callers, log)
+                    if not check_model(ctx, gs, drv, rng, m, sh, log, callers, siblings, "holder history %d step %d" % (h, k)):
+                        break
+                    continue
+                # an evaluation through one holder: new positions (unstructured / structured) or the stored ones
+                who = ["srf", "kr", "cs"][int(rng.integers(3))] if force is None else force
+                force_now, force = force, None
+                if m.nugget > 0 and who == "cs":
+                    who = "csk"   # right after a fit: the nugget noise of CondSRF depends on the RNG position; its kriging part is compared
+                ckey = {"kr": "kr", "cs": "cs", "csk": "cs"}.get(who)
+                holders = {"srf": srf, "kr": kr, "cs": cs, "csk": cs.krige}
+                if ckey and dirty[ckey]:
+                    # documented way to tell a kriging object about an in-place model change: hand the model over again
+                    log.append("%s.model = model (same object)" % who)
+                    holders[who].model = m
+                    dirty[ckey] = False
+                elif force_now is None and rng.random() < 0.25:
+                    log.append("%s.model = model (same object)" % who)
+                    holders[who].model = m
+                seed = int(rng.integers(1, 2 ** 31 - 1))
+                skey = ckey or who          # CondSRF and its kriging object share the stored positions
+                use_stored = stored.get(skey) is not None and rng.random() < 0.5
+                if use_stored:
+                    pos, mt = stored[skey]
+                    log.append("%s() on the stored positions, seed %d" % (who, seed))
+                    arg = dict()
+                else:
+                    if rng.random() < 0.3:
+                        mt = "structured"
+                        pos = [np.sort(rng.uniform(-3, 3, size=3)) * sh.len for _ in range(dim)]
+                    else:
+                        mt = "unstructured"
+                        pos = rng.uniform(-4, 4, size=(dim, 9)) * sh.len
+                    log.append("%s(pos, mesh_type=%s), seed %d: %s" % (who, mt, seed, [hexl(p) for p in pos]))
+                    arg = dict(pos=[np.array(p) for p in pos], mesh_type=mt)
+                    stored[skey] = ([np.array(p) for p in pos], mt)
+                fm = fresh_model(gs, cls, sh, m)
+                fpos = [np.array(p) for p in pos]
+                upos = np.array(np.meshgrid(*fpos, indexing="ij")).reshape(dim, -1) if mt == "structured" else np.array(fpos)
+                amp = math.sqrt(m.sill)
+                ctx.count(("history-eval", who, mt, use_stored, dim), hist=dict(history_eval="%s %s %s" % (who, mt, "stored" if use_stored else "new")))
+                if who == "srf":
+                    got = srf(seed=seed, **arg)
+                    want = gs.SRF(fm, seed=seed, mode_no=32)(fpos, mesh_type=mt)
+                    ok = rel_ok(got, want, amp)
+                    holder = srf
+                elif who in ("kr", "csk"):
+                    holder = holders[who]
+                    got = holder(return_var=True, **arg)
+                    want = mk_krige(fm, ckey)(fpos, mesh_type=mt, return_var=True)
+                    ok = rel_ok(got[0], want[0], max(amp, 1.0)) and rel_ok(got[1], want[1], m.sill)
+                else:
+                    got = cs(seed=seed, **arg)
+                    want = gs.CondSRF(mk_krige(fm, "cs"), seed=seed, mode_no=32)(fpos, mesh_type=mt)
+                    ok = rel_ok(got, want, max(amp, 1.0))
+                    holder = cs
+                if not ok:
+                    viol("history-%s" % who, "%s result after this history differs from a fresh %s built from the present model parameters"
+                         % (who, type(holder).__name__), dict(dim=dim, anis=hexl(sh.anis), angles=hexl(sh.angles)))
+                # the isotropic positions the holder works with = extracted isometrize of the present parameters
+                iso_m = drv.call("geo_isometrize", *sh.args(), upos)
+                sc = np.abs(np.asarray(gs.tools.geometric.matrix_isometrize(dim, sh.angles, sh.anis))) @ np.abs(upos)
+                iso_h = holder.pre_pos()[0]
+                if not agree(iso_h, iso_m, sc):
+                    viol("history-pre-pos", "%s.pre_pos() on the stored positions is not isometrize(present parameters)(pos)" % who,
+                         dict(dim=dim, anis=hexl(sh.anis), angles=hexl(sh.angles)))
+                if ckey:
+                    kp = getattr(kr if who == "kr" else cs.krige, "_krige_pos", None)
+                    if kp is not None:
+                        cpos = cond[ckey][0]
+                        scc = np.abs(np.asarray(gs.tools.geometric.matrix_isometrize(dim, sh.angles, sh.anis))) @ np.abs(cpos)
+                        if not agree(kp, drv.call("geo_isometrize", *sh.args(), cpos), scc):
+                            viol("history-krige-pos", "conditioning positions of %s are not isometrized with the present parameters" % who,
+                                 dict(dim=dim, anis=hexl(sh.anis), angles=hexl(sh.angles)))
+                if not check_model(ctx, gs, drv, rng, m, sh, log, callers, siblings, "holder history %d step %d" % (h, k)):
+                    break
+        except Exception as e:
+            if "history-exception" not in SEEN:
+                SEEN.add("history-exception")
+                import traceback
+                ctx.violation("probe: history-exception", "a valid history raised %r" % (e,), dict(history=log, tb=traceback.format_exc()[-1500:]),
+                              key="probe:history-exception")
+
+
 # --------------------------------------------------------------------------- run
 
 def run(ctx):
     rng = C.Rng(ctx.seed, "C12")
     ctx.rule = ("cases = (dim, angle list, anis list) with every given length 0..needed+2, dims 1-4 (1-6/1-8 thorough); model / "
-                "pipeline cases = (model class, dim, random anis, angles, positions); non-trivial = dim >= 2 with some "
+                "pipeline cases = (model class, dim, random anis, angles, positions); history cases = (class, dim, op kind, step) of "
+                "random setter / aliasing / re-assignment / evaluation histories on one model object and its holders; non-trivial = dim >= 2 with some "
                 "|sin(angle)| > 1e-6 and some anis != 1; distinct = distinct (stage, dim, lengths) or (model class, dim) keys")
     ctx.trusted = [
         "Coq 8.16.1 kernel (coqc); no native_compute",
@@ -622,6 +1033,8 @@ def run(ctx):
     try:
         if drv is not None:
             correspondence(ctx, drv, rng, bad)
+            model_histories(ctx, drv, C.Rng(ctx.seed, "C12/model-histories"))
+            holder_histories(ctx, drv, C.Rng(ctx.seed, "C12/holder-histories"))
     finally:
         if drv:
             drv.close()
